@@ -160,6 +160,9 @@ class Tr:
     def typ(self, e: ast.expr) -> str | None:
         if isinstance(e, ast.Name):
             return self.types.get(e.id)
+        if (isinstance(e, ast.Call) and isinstance(e.func, ast.Attribute) and e.func.attr == "with_zero_div"
+                and not e.args):
+            return self.typ(e.func.value)
         if _is_self_attr(e):
             return FIELD_TYPES.get(e.attr)
         if isinstance(e, ast.Subscript) and isinstance(e.value, ast.Name):
@@ -463,7 +466,7 @@ class Tr:
             for tgt in s.targets:
                 if isinstance(tgt, ast.Name):
                     out += f"{ind}let {tgt.id} := {val}\n"
-                    t = self.typ(s.value) if isinstance(s.value, (ast.Name, ast.Attribute)) else None
+                    t = self.typ(s.value) if isinstance(s.value, (ast.Name, ast.Attribute, ast.Call)) else None
                     if t:
                         self.types[tgt.id] = t
                     else:
@@ -626,6 +629,7 @@ def generate(src: Path) -> dict[str, str]:
     files["Utils"] = generate_utils(src)
     files["Config"] = generate_config(src)
     files["Solve"] = generate_solve(src)
+    files["Safe"] = generate_safe(src)
     return files
 
 
@@ -921,10 +925,19 @@ def generate_utils(src: Path) -> str:
         raise Unsupported(f"check_scalar signature {have}")
     auto = ["def autoCheck (value : PyVal) (name : String) : Except PyErr PyVal := do"] + TrAuto().stmts(ac.body, "  ")
     rows, args_defs = entry_rows(mods)
+    dv = find(mods, "utils.div")
+    div_src = "\n".join(ast.unparse(x) for x in dv.body if not (isinstance(x, ast.Expr) and isinstance(x.value, ast.Constant)))
+    if div_src != ("if denom != 0:\n    return numer / denom\nif fill_zero_div != 'auto':\n    return fill_zero_div\n"
+                   "return float('inf') if numer > 0 else float('nan')"):
+        raise Unsupported("utils.div body changed")
+    div_lean = (f"-- utils.div  (line {dv.lineno}), fill_zero_div = \"auto\"; `quot` is what `numer / denom` evaluates to\n"
+                "def divAuto (numer denom quot : XR) : XR :=\n"
+                "  if !(XR.eq denom (XR.fin 0)) then quot\n"
+                "  else if XR.lt (XR.fin 0) numer then XR.pinf else XR.nan\n\n")
     return ("-- GENERATED by harness/translate.py from /repo/src/tea_tasting — do not edit.\n"
             "import TeaTasting.Basic.PyVal\n\nnamespace Gen\n\n"
             f"-- utils.check_scalar  (line {cs.lineno})\n" + tr_check_scalar(cs) + "\n"
-            f"-- utils.auto_check  (line {ac.lineno})\n" + "\n".join(auto) + "\n\n"
+            f"-- utils.auto_check  (line {ac.lineno})\n" + "\n".join(auto) + "\n\n" + div_lean +
             "-- arguments of the check_scalar calls found in the entry points\n" + "".join(args_defs) + "\n"
             "def argsTable : List (String × CheckArgs) := [\n"
             + ",\n".join(f"  (\"{d.split()[1][5:]}\", {d.split()[1]})" for d in args_defs) + "\n]\n\n"
@@ -1145,6 +1158,265 @@ def generate_solve(src: Path) -> str:
             "-- … solving for n_obs: (lower end of the bracket, start value handed to _find_boundary)\n"
             f"def RatioOfMeans.solve_n_bracket (self : RatioCfg {A}) : {A} × {A} :=\n" + n_lets
             + "  (lower_bound, upper_bound_init)\n\nend Gen\n")
+
+
+# ------------------------------------------------------------------------------------------
+# safety rendering (C18): the same functions in `Except PyErr` over tagged abstract numbers
+# ------------------------------------------------------------------------------------------
+SAFE_KEYS = [
+    "aggr._sorted_tuple", "aggr.Aggregates.count", "aggr.Aggregates.mean", "aggr.Aggregates.var",
+    "aggr.Aggregates.cov", "aggr.Aggregates.ratio_var", "aggr.Aggregates.ratio_cov", "aggr._add_mean",
+    "aggr._add_var", "aggr._add_cov", "aggr.Aggregates.__add__", "mean.RatioOfMeans._covariate_cov",
+    "mean.RatioOfMeans._covariate_coef", "mean.RatioOfMeans._metric_mean", "mean.RatioOfMeans._metric_var",
+    "mean.RatioOfMeans._scale_and_distr@none", "mean.RatioOfMeans._analyze_stats",
+    "mean.RatioOfMeans.analyze_aggregates",
+]
+SAFE_TYPES = {f"Aggr {A}": "AggrS V", f"RatioCfg {A}": "RatioCfgS V", A: "SV V", f"MeanResult {A}": "MeanResultS V",
+              f"{A} × Dist {A} × Unit": "SV V × DistS V × Unit", f"{A} × Dist {A} × Dist {A}": "SV V × DistS V × DistS V"}
+SV_BIN = {ast.Add: "SV.add", ast.Sub: "SV.sub", ast.Mult: "SV.mul"}
+SV_CMP = {ast.Lt: ("SV.ltB", False, False), ast.LtE: ("SV.leB", False, False), ast.Gt: ("SV.ltB", True, False),
+          ast.GtE: ("SV.leB", True, False), ast.Eq: ("SV.eqB", False, False), ast.NotEq: ("SV.eqB", False, True)}
+
+
+def safe_name(lean: str) -> str:
+    return lean + "S"
+
+
+class TrSafe(Tr):
+    """same statement walker; expressions are rendered into `Except PyErr` with tagged values"""
+
+    def styp(self, t: str) -> str:
+        return SAFE_TYPES.get(t, t)
+
+    def is_aggr(self, e: ast.expr) -> bool:
+        t = self.typ(e)
+        return bool(t) and t.startswith("Aggr")
+
+    def is_str(self, e: ast.expr) -> bool:
+        return isinstance(e, ast.Constant) and isinstance(e.value, str) or self.typ(e) == "String"
+
+    def call_sig(self, key, recv, args, kws):  # noqa: ANN001
+        sig = SIGS[key]
+        params = sig["params"][1:] if recv is not None else sig["params"]
+        vals = {}
+        if len(args) > len(params):
+            raise Unsupported(f"too many args for {key}")
+        for (pn, pt), a in zip(params, args):
+            vals[pn] = self.arg(a, pt)
+        for kw in kws:
+            if kw.arg not in dict(params):
+                raise Unsupported(f"unknown keyword {kw.arg} for {key}")
+            vals[kw.arg] = self.arg(kw.value, dict(params)[kw.arg])
+        missing = [pn for pn, _ in params if pn not in vals]
+        if missing:
+            raise Unsupported(f"missing args {missing} for {key}")
+        parts = [safe_name(sig["lean"]), "A"]
+        if sig.get("prims"):
+            parts.append("P")
+        if recv is not None:
+            parts.append(recv)
+        parts += [vals[pn] for pn, _ in params]
+        if key == "aggr._sorted_tuple":
+            return "(" + " ".join([sig["lean"]] + parts[2:]) + ")"     # pure string function: reuse
+        return "(← " + " ".join(parts) + ")"
+
+    def ex(self, e: ast.expr) -> str:  # noqa: C901, PLR0911, PLR0912
+        if isinstance(e, ast.BinOp):
+            if isinstance(e.op, ast.Pow):
+                if isinstance(e.right, ast.Constant) and e.right.value == 2:
+                    return f"(← SV.pow2 A {self.ex(e.left)})"
+                raise Unsupported("pow")
+            if isinstance(e.op, ast.Add) and self.is_aggr(e.left):
+                return f"(← Aggr.addS A {self.ex(e.left)} {self.ex(e.right)})"
+            if isinstance(e.op, ast.Div):
+                return f"(← SV.div A {self.ex(e.left)} {self.ex(e.right)})"
+            if type(e.op) not in SV_BIN:
+                raise Unsupported(f"operator {type(e.op).__name__}")
+            return f"({SV_BIN[type(e.op)]} A {self.ex(e.left)} {self.ex(e.right)})"
+        if isinstance(e, ast.UnaryOp) and isinstance(e.op, ast.USub):
+            return f"(SV.neg A {self.ex(e.operand)})"
+        if isinstance(e, ast.Constant):
+            if isinstance(e.value, bool) or e.value is None:
+                raise Unsupported(f"constant {e.value!r}")
+            if isinstance(e.value, int):
+                return f"(SV.lit A {e.value})" if e.value >= 0 else f"(SV.lit A ({e.value}))"
+            if isinstance(e.value, float):
+                num, den = e.value.as_integer_ratio()
+                return f"(SV.ofRat A {num} {den})"
+            if isinstance(e.value, str):
+                return f"\"{e.value}\""
+            raise Unsupported(f"constant {e.value!r}")
+        if isinstance(e, ast.Name):
+            return e.id
+        if isinstance(e, ast.Attribute):
+            if _is_self_attr(e):
+                return f"self.{e.attr}"
+            raise Unsupported(ast.dump(e))
+        if isinstance(e, ast.Tuple):
+            return "(" + ", ".join(self.ex(x) for x in e.elts) + ")"
+        if isinstance(e, ast.Subscript):
+            base = e.value
+            if _is_self_attr(base):
+                if base.attr in ("mean_", "var_"):
+                    return f"(← self.{base.attr} {self.ex(e.slice)})"
+                if base.attr == "cov_":
+                    return f"(← (fun t => self.cov_ t.1 t.2) {self.ex(e.slice)})"
+            if isinstance(base, ast.Name) and isinstance(e.slice, ast.Constant):
+                return f"{base.id}.{e.slice.value + 1}"
+            raise Unsupported(ast.dump(e))
+        if isinstance(e, ast.Compare) and len(e.ops) == 1:
+            return self.cond(e)
+        if isinstance(e, ast.IfExp):
+            t = e.test
+            if (isinstance(t, ast.Compare) and isinstance(t.ops[0], ast.Is) and isinstance(t.left, ast.Name)
+                    and isinstance(t.comparators[0], ast.Constant) and t.comparators[0].value is None):
+                if t.left.id in self.none:
+                    return "()" if (isinstance(e.body, ast.Constant) and e.body.value is None) else self.ex(e.body)
+                if t.left.id in self.some:
+                    return self.ex(e.orelse)
+            raise Unsupported("ifexp (safety rendering)")
+        if isinstance(e, ast.Call):
+            return self.call(e)
+        raise Unsupported(ast.dump(e))
+
+    def cond(self, t: ast.expr) -> str:
+        if isinstance(t, ast.Attribute) and self.typ(t) == "Bool":
+            return f"{self.ex(t)} = true"
+        if isinstance(t, ast.UnaryOp) and isinstance(t.op, ast.Not):
+            return f"¬ ({self.cond(t.operand)})"
+        if isinstance(t, ast.BoolOp):
+            op = " ∧ " if isinstance(t.op, ast.And) else " ∨ "
+            return "(" + op.join(self.cond(v) for v in t.values) + ")"
+        if isinstance(t, ast.Call) and self.dotted(t.func) == "math.isnan":
+            return f"(SV.isNaN A {self.ex(t.args[0])}) = true"
+        if isinstance(t, ast.Compare) and len(t.ops) == 1:
+            l, r = t.left, t.comparators[0]
+            if self.is_str(l) or self.is_str(r):
+                if isinstance(t.ops[0], ast.Eq):
+                    return f"({self.ex(l)} = {self.ex(r)})"
+                if isinstance(t.ops[0], ast.Lt):
+                    return f"({self.ex(l)} < {self.ex(r)})"
+                raise Unsupported("string comparison")
+            if type(t.ops[0]) not in SV_CMP:
+                raise Unsupported(ast.dump(t))
+            fn, swap, negate = SV_CMP[type(t.ops[0])]
+            a, b = (self.ex(r), self.ex(l)) if swap else (self.ex(l), self.ex(r))
+            return f"({fn} A {a} {b}) = {'false' if negate else 'true'}"
+        raise Unsupported(f"condition {ast.unparse(t)}")
+
+    def call(self, e: ast.Call) -> str:  # noqa: C901, PLR0911, PLR0912
+        f = e.func
+        if isinstance(f, ast.Name):
+            if f.id == "abs":
+                return f"(SV.abs A {self.ex(e.args[0])})"
+            if f.id in ("min", "max") and len(e.args) == 2 and not e.keywords:
+                return f"(SV.{f.id} A {self.ex(e.args[0])} {self.ex(e.args[1])})"
+            if f.id == "float" and isinstance(e.args[0], ast.Constant):
+                table = {"+inf": "(SV.inf A true)", "inf": "(SV.inf A true)", "-inf": "(SV.inf A false)"}
+                if e.args[0].value not in table:
+                    raise Unsupported(f"float({e.args[0].value!r})")
+                return table[e.args[0].value]
+            if f.id in FREE_FUNCS:
+                return self.call_sig(FREE_FUNCS[f.id], None, e.args, e.keywords)
+            if f.id == "_exp" and len(e.args) == 1 and not e.keywords:
+                return f"(SV.expSafe A {self.ex(e.args[0])})"
+            if f.id == "MeanResult":
+                if e.args:
+                    raise Unsupported("positional MeanResult")
+                fields = ", ".join(f"{kw.arg} := {self.ex(kw.value)}" for kw in e.keywords)
+                return "({ " + fields + " } : MeanResultS V)"
+            if f.id == "Aggregates" and self.key == "aggr.Aggregates.__add__":
+                return self.aggregates_ctor(e)
+            raise Unsupported(f"call {f.id}")
+        if isinstance(f, ast.Attribute):
+            dotted = self.dotted(f)
+            if dotted == "math.sqrt":
+                return f"(← SV.sqrt A {self.ex(e.args[0])})"
+            if dotted == "math.exp":
+                return f"(← SV.exp A {self.ex(e.args[0])})"
+            if dotted == "scipy.stats.t":
+                return f"(P.t {self.kw(e, 'df')})"
+            if dotted == "scipy.stats.nct":
+                return f"(P.nct {self.kw(e, 'df')} {self.kw(e, 'nc')})"
+            if dotted == "scipy.stats.norm":
+                loc = [k for k in e.keywords if k.arg == "loc"]
+                return f"(P.norm {self.ex(loc[0].value) if loc else '(SV.lit A 0)'})"
+            recv = f.value
+            if f.attr in DIST_METHODS:
+                return f"({self.ex(recv)}.{f.attr} {self.ex(e.args[0])})"
+            if f.attr == "with_zero_div" and not e.args:
+                return f"(AggrS.withZeroDiv {self.ex(recv)})"
+            if isinstance(recv, ast.Name) and recv.id == "self" and not self.in_aggr:
+                if f.attr == "_scale_and_distr":
+                    has_eff = any(k.arg == "effect_size" for k in e.keywords) or len(e.args) > 4
+                    if has_eff:
+                        raise Unsupported("safety rendering covers the analysis only")
+                    return self.call_sig("mean.RatioOfMeans._scale_and_distr@none", "self", e.args, e.keywords)
+                if f.attr in SELF_METHODS:
+                    return self.call_sig(SELF_METHODS[f.attr], "self", e.args, e.keywords)
+            if f.attr in AGGR_METHODS:
+                args = e.args
+                if any(isinstance(a, ast.Starred) for a in args):
+                    st = self.ex(args[0].value)
+                    return f"(← Aggr.covS A {self.ex(recv)} (some {st}.1) (some {st}.2))"
+                return self.call_sig(AGGR_METHODS[f.attr], self.ex(recv), args, e.keywords)
+        raise Unsupported(ast.dump(e))
+
+    def aggregates_ctor(self, e: ast.Call) -> str:
+        """in the safety rendering the per-key values of `__add__` are computed on lookup; that they
+        never raise for ANY key is part of the theorem (`addS_fields_ok`)"""
+        raise Unsupported("handled by render_add")
+
+    def stmts(self, body, ind):  # noqa: ANN001
+        if body and isinstance(body[0], ast.Return) and body[0].value is not None:
+            return ind + "pure " + self.ex(body[0].value)
+        return super().stmts(body, ind)
+
+    def render(self) -> str:
+        sig = self.sig
+        params = " ".join(f"({n} : {self.styp(t)})" for n, t in sig["params"])
+        pr = "(A : Arith V) " + ("(P : PrimsS V) " if sig.get("prims") else "")
+        body = self.stmts(self.fn.body, "  ")
+        return f"def {safe_name(sig['lean'])} {pr}{params} : Except PyErr ({self.styp(sig['ret'])}) := do\n{body}\n"
+
+
+def render_add_safe(fn: ast.FunctionDef) -> str:
+    """`Aggregates.__add__`: per-key values via the generated _add_* (checked: the three comprehensions
+    call _add_mean/_add_var/_add_cov with (self, other, key))"""
+    ret = fn.body[-1]
+    if not (isinstance(ret, ast.Return) and isinstance(ret.value, ast.Call)):
+        raise Unsupported("__add__ shape")
+    kws = {k.arg: ast.unparse(k.value) for k in ret.value.keywords}
+    want = {"count_": "self.count() + other.count() if self.count_ is not None else None",
+            "mean_": "{col: _add_mean(self, other, col) for col in self.mean_}",
+            "var_": "{col: _add_var(self, other, col) for col in self.var_}",
+            "cov_": "{cols: _add_cov(self, other, cols) for cols in self.cov_}"}
+    if kws != want:
+        raise Unsupported("__add__: comprehension bodies changed")
+    return ("def Aggr.addS (A : Arith V) (self : AggrS V) (other : AggrS V) : Except PyErr (AggrS V) := do\n"
+            "  -- Python computes every entry eagerly; here on lookup (all entries are ok: C18.addS_entries_ok)\n"
+            "  pure { count_ := (SV.add A (← Aggr.countS A self) (← Aggr.countS A other)),\n"
+            "         mean_ := fun col => addMeanS A self other col,\n"
+            "         var_ := fun col => addVarS A self other col,\n"
+            "         cov_ := fun c0 c1 => addCovS A self other (c0, c1) }\n")
+
+
+def generate_safe(src: Path) -> str:
+    mods = {m: ast.parse((src / f).read_text()) for m, f in MODULE_SOURCE.items() if m in ("aggr", "mean")}
+    parts = []
+    for key in SAFE_KEYS:
+        sig = SIGS[key]
+        fn = find(mods, sig.get("py", key))
+        if key == "aggr._sorted_tuple":
+            continue
+        if key == "aggr.Aggregates.__add__":
+            parts.append(f"-- {key}  (line {fn.lineno})\n" + render_add_safe(fn))
+            continue
+        parts.append(f"-- {sig.get('py', key)}  (line {fn.lineno})\n" + TrSafe(key, sig, fn).render())
+    return ("-- GENERATED by harness/translate.py from /repo/src/tea_tasting — do not edit.\n"
+            "-- Exception-safety rendering of aggr.py / metrics/mean.py (see Basic/Safe.lean).\n"
+            "import TeaTasting.Basic.Safe\nimport TeaTasting.Gen.Aggr\n\nvariable {V : Type}\n\nnamespace Gen\n\n"
+            + "\n".join(parts) + "\nend Gen\n")
 
 
 def write_if_changed(path: Path, text: str) -> bool:
